@@ -5384,7 +5384,14 @@ class FlowIRConcrete(object):
             )
             platform_stage_blueprint = self.get_platform_stage_blueprint(stage_index, platform)
 
-            stage_blueprint = FlowIR.override_object(global_stage_blueprint, platform_stage_blueprint)
+            stage_blueprint = global_stage_blueprint
+            if global_stage_blueprint and platform != FlowIR.LabelDefault:
+                # VV: The platform global blueprint has a higher priority than the default stage blueprint, the
+                # instance only has 2 layers (global, stage) so repeat the platform global blueprint here, otherwise
+                # components that get instantiated after loading the instance (e.g. next iterations of loops) would
+                # inherit what the default stage blueprint says instead
+                stage_blueprint = FlowIR.override_object(stage_blueprint, self.get_platform_blueprint(platform))
+            stage_blueprint = FlowIR.override_object(stage_blueprint, platform_stage_blueprint)
 
             context = global_variables.copy()
             context.update(stage_variables[stage_index].copy())
